@@ -122,6 +122,14 @@ CHECKS["C15"] = dict(
     design="5/C15",
 )
 
+CHECKS["C11"] = dict(
+    engine="E1-config-lattice",
+    technique="enumeration of mappable kernel classes x index subsets/slices x hyper-parameter and control-point sets, real mapping routines vs the Python kernel sum on a lattice of interior, edge and corner points",
+    text="For every mappable kernel class (RBF, constant x RBF, subset RBF with list / closed / open / stepped / start-less slices, antisymmetric RBF built by the package's own helper, spin kernel, KernelEvaluator over RBF / additive / polynomial / composite kernels, linear; spline mapping of subset RBF in 1-3 dimensions and of additive RBF, additive rational-quadratic and additive linear-times-RBF kernels of orders 1-3, alone and multiplied by a subset RBF) the evaluator produced by the real constructors / get_mapped_gp_evaluator_* is compared with sum_a k(x, x_a) alpha_a and its gradient: 1e-11 / 2e-8 for the exact evaluators; for spline-mapped models the value and gradient errors at grid densities 4, 8, 16 must shrink (>= 3x resp. >= 1.5x per doubling) and stay below measured bounds at the default density. get_k0_for_mapping of each additive kernel is compared with the factor its own evaluation uses, for three length scales.",
+    note="Evaluation inside the feature bounds only; seeded control points; spline thresholds from measurement.",
+    design="5/C11",
+)
+
 NOT_YET = {}
 
 
